@@ -251,7 +251,19 @@ def judgeCompute (prop : String) : P Verdict := do
   match st with
   | "timeout" =>
     let _ ← restOfInput
-    pure { prop := false, corr := false, msg := "implementation did not return (watchdog)" }
+    -- C18 promises a stop only AT a check where convergence holds and the last L+1 rankings agree (and only
+    -- for runs without tied scores): a run in which the documented schedule itself never reaches such a
+    -- check within the driver's horizon, or whose scores tie, is outside what it states
+    if prop == "C18" then
+      let sp := specRun r fuelCap
+      if sp.tied || !sp.endedByCriteria then
+        pure { prop := true, corr := true,
+               msg := s!"implementation did not return within the watchdog; the documented schedule does not stop within {fuelCap} iterations either (tied={sp.tied})" }
+      else
+        pure { prop := false, corr := false,
+               msg := s!"implementation did not return (watchdog); the documented schedule stops at iteration {sp.stopIter}" }
+    else
+      pure { prop := false, corr := false, msg := "implementation did not return (watchdog)" }
   | "panic" =>
     let _ ← restOfInput
     pure { prop := false, corr := false, msg := "implementation panicked" }
